@@ -70,3 +70,26 @@ let vsml (i : SmlTT.smlitem) = match i with
 
 let () =
   register "gen_sml" (function [ee; t] -> L (List.map vsml (SmlTT.gen_sml (str ee = "1") (table_of t))) | _ -> failwith "arity")
+
+let vctok (t : CsSM.ctok) = match t with
+  | CsSM.TIf g -> vstrs ["if"; g] | CsSM.TOpen -> vstrs ["{"; ""] | CsSM.TClose -> vstrs ["}"; ""]
+  | CsSM.TExit s -> vstrs ["exit"; s] | CsSM.TAction a -> vstrs ["action"; a] | CsSM.TEnter s -> vstrs ["enter"; s]
+  | CsSM.TSetState s -> vstrs ["setstate"; s] | CsSM.TReturn -> vstrs ["return"; ""]
+let ctok_of v : CsSM.ctok = match strs v with
+  | ["if"; g] -> CsSM.TIf g | ["{"; _] -> CsSM.TOpen | ["}"; _] -> CsSM.TClose | ["exit"; s] -> CsSM.TExit s
+  | ["action"; a] -> CsSM.TAction a | ["enter"; s] -> CsSM.TEnter s | ["setstate"; s] -> CsSM.TSetState s
+  | ["return"; _] -> CsSM.TReturn | _ -> failwith "ctok"
+
+let () =
+  register "gen_cs" (function [t] ->
+      let t = table_of t in
+      L (List.map (fun s -> L [S s; L (List.map (fun e -> L [S e; L (List.map vctok (CsSM.cs_handler t s e))]) (CsSM.cs_handlers t s))])
+           (CsSM.cs_classes t))
+    | _ -> failwith "arity");
+  register "cs_parses" (function [ts] ->
+      vbool (match CsSM.parse_braces (List.map ctok_of (lst ts)) with Some _ -> true | None -> false) | _ -> failwith "arity");
+  register "step_quiet" (function [t; s; e; bits] ->
+      let t = table_of t in
+      let ((tr, c), n) = TableInterp.step_rows_quiet (gv_of bits) Datatypes.O (str s) (str e) (TableDef.rows_for t (str s) (str e)) in
+      L [L (List.map vcb tr); S c; vint (int_of_nat n)]
+    | _ -> failwith "arity")
